@@ -43,6 +43,8 @@ pub enum Act {
     DropClearRequest(u8),
     /// a second answer to the (already answered) notify request
     LateFire(u8),
+    /// the task that holds a deferred timer future goes on to poll it for the first time
+    OpenGate(u8),
 }
 
 #[derive(Debug, Clone, PartialEq, Eq, Hash, Serialize, Deserialize)]
@@ -50,6 +52,11 @@ pub struct Case {
     /// true = notify_after, false = notify_at
     pub timers: Vec<bool>,
     pub acts: Vec<Act>,
+    /// how each timer is run: 0 = `builder.then_send(..)`; 1 = `builder.into_future(ctx).await` in a
+    /// `Command::new` task; 2 = the future is created with `into_future`, the task then waits for
+    /// something else (a gate the schedule opens) and only afterwards polls the timer for the first time
+    #[serde(default)]
+    pub styles: Vec<u8>,
     /// a history on a `Core` whose app uses the legacy `Time` capability (run in the same process,
     /// so that ids are compared across the two APIs)
     #[serde(default)]
@@ -298,6 +305,8 @@ struct M {
     req_dropped: bool,
     clear_answer_waiting: bool,
     clear_req_dropped: bool,
+    /// the timer's future can be polled (always, except for a deferred timer whose gate is still shut)
+    gate_open: bool,
 }
 
 /// every timer id ever seen in this process (ids must be unique process-wide)
@@ -312,13 +321,47 @@ pub struct Info {
 }
 
 type Builder = Box<dyn FnOnce(usize) -> Command<Effect, Event>>;
-fn build(after: bool) -> (Builder, TimerHandle) {
+type Gate = futures::channel::oneshot::Sender<()>;
+fn build(after: bool, style: u8) -> (Builder, TimerHandle, Option<Gate>) {
+    macro_rules! wrap {
+        ($b:expr, $h:expr) => {{
+            let (b, h) = ($b, $h);
+            match style % 3 {
+                0 => (Box::new(move |i| b.then_send(move |o| Event::Out(i, o))) as Builder, h, None),
+                1 => (
+                    Box::new(move |i| {
+                        Command::new(move |ctx| async move {
+                            let o = b.into_future(ctx.clone()).await;
+                            ctx.send_event(Event::Out(i, o));
+                        })
+                    }) as Builder,
+                    h,
+                    None,
+                ),
+                _ => {
+                    let (tx, rx) = futures::channel::oneshot::channel::<()>();
+                    (
+                        Box::new(move |i| {
+                            Command::new(move |ctx| async move {
+                                let timer = b.into_future(ctx.clone());
+                                let _ = rx.await;
+                                let o = timer.await;
+                                ctx.send_event(Event::Out(i, o));
+                            })
+                        }) as Builder,
+                        h,
+                        Some(tx),
+                    )
+                }
+            }
+        }};
+    }
     if after {
         let (b, h) = Time::<Effect, Event>::notify_after(Duration::from_secs(1));
-        (Box::new(move |i| b.then_send(move |o| Event::Out(i, o))), h)
+        wrap!(b, h)
     } else {
         let (b, h) = Time::<Effect, Event>::notify_at(std::time::SystemTime::UNIX_EPOCH + Duration::from_secs(5));
-        (Box::new(move |i| b.then_send(move |o| Event::Out(i, o))), h)
+        wrap!(b, h)
     }
 }
 
@@ -326,13 +369,15 @@ pub fn run(case: &Case) -> Result<Info, String> {
     let nt = case.timers.len().clamp(1, 3);
     let mut handles: Vec<Option<TimerHandle>> = vec![];
     let mut cmds = vec![];
+    let mut gates: Vec<Option<Gate>> = vec![];
     for (i, after) in case.timers.iter().take(nt).enumerate() {
-        let (b, h) = build(*after);
+        let (b, h, g) = build(*after, case.styles.get(i).copied().unwrap_or(0));
         handles.push(Some(h));
+        gates.push(g);
         cmds.push(b(i));
     }
     let mut cmd: Command<Effect, Event> = Command::all(cmds);
-    let mut model: Vec<M> = (0..nt).map(|_| M { st: St::Created, clear_sent: false, handle_gone: false, answer_waiting: false, req_dropped: false, clear_answer_waiting: false, clear_req_dropped: false }).collect();
+    let mut model: Vec<M> = (0..nt).map(|i| M { st: St::Created, clear_sent: false, handle_gone: false, answer_waiting: false, req_dropped: false, clear_answer_waiting: false, clear_req_dropped: false, gate_open: gates[i].is_none() }).collect();
     let mut ids: Vec<Option<TimerId>> = vec![None; nt];
     let mut reqs: Vec<Option<Request<TimeRequest>>> = (0..nt).map(|_| None).collect();
     let mut clear_reqs: Vec<Option<Request<TimeRequest>>> = (0..nt).map(|_| None).collect();
@@ -357,6 +402,7 @@ pub fn run(case: &Case) -> Result<Info, String> {
                 for (i, m) in model.iter_mut().enumerate() {
                     loop {
                         match m.st {
+                            St::Created if !m.gate_open => {}
                             St::Created => {
                                 if m.clear_sent {
                                     m.st = St::Cleared;
@@ -514,6 +560,13 @@ pub fn run(case: &Case) -> Result<Info, String> {
                     }
                 }
             }
+            Act::OpenGate(k) => {
+                let i = t(k);
+                if let Some(g) = gates[i].take() {
+                    let _ = g.send(());
+                    model[i].gate_open = true;
+                }
+            }
             Act::DropClearRequest(k) => {
                 let i = t(k);
                 if let Some(q) = clear_reqs[i].take() {
@@ -539,6 +592,7 @@ pub fn strategy() -> BoxedStrategy<Case> {
         2 => (0u8..3).prop_map(Act::AnswerClear),
         1 => (0u8..3).prop_map(Act::DropClearRequest),
         1 => (0u8..3).prop_map(Act::LateFire),
+        2 => (0u8..3).prop_map(Act::OpenGate),
     ];
     let lact = prop_oneof![
         3 => any::<bool>().prop_map(LAct::Start),
@@ -548,7 +602,7 @@ pub fn strategy() -> BoxedStrategy<Case> {
         1 => any::<u8>().prop_map(LAct::DropRequest),
         1 => any::<u8>().prop_map(LAct::LateFire),
     ];
-    (prop::collection::vec(any::<bool>(), 1..4), prop::collection::vec(act, 0..20), prop::collection::vec(lact, 0..10)).prop_map(|(timers, acts, legacy)| Case { timers, acts, legacy }).boxed()
+    (prop::collection::vec(any::<bool>(), 1..4), prop::collection::vec(act, 0..20), prop::collection::vec(lact, 0..10), prop::collection::vec(0u8..3, 3)).prop_map(|(timers, acts, legacy, styles)| Case { timers, acts, legacy, styles }).boxed()
 }
 
 pub fn main(mode: Mode) {
@@ -588,7 +642,7 @@ pub fn main(mode: Mode) {
                 Report {
                     prop,
                     tier,
-                    rule: "(a) 1-3 command-API timers (notify_after / notify_at) under Command::all and up to 20 actions drawn from {poll, fire, clear, drop handle, drop request, answer clear, drop clear request, duplicate fire}; the observed TimeRequest effects and TimerOutcome events must be a run of the per-timer automaton written from the property statement, and ids must be unique across all timers created in the process through either API; (b) in the same process a history of up to 10 calls on a Core whose app uses the legacy Time capability (start, start-and-clear in one update, fire, clear by id, drop request, duplicate fire): every started timer sends one notify request with a fresh id unless it was cleared in the same update, every clear sends exactly one Clear for that id, and each timer reports at most one outcome - completed only if the shell answered, cleared only if the app had cleared it - unchanged by later clears and answers; non-trivial = some timer saw both a clear and a fire, or >= 2 timers with >= 6 actions; distinct = distinct (timer kinds, action list)",
+                    rule: "(a) 1-3 command-API timers (notify_after / notify_at; each run through builder.then_send, through into_future(ctx).await in a Command::new task, or with its future created first and polled for the first time only after a gate of the schedule opens) under Command::all and up to 20 actions drawn from {poll, fire, clear, drop handle, drop request, answer clear, drop clear request, duplicate fire, open gate}; the observed TimeRequest effects and TimerOutcome events must be a run of the per-timer automaton written from the property statement, and ids must be unique across all timers created in the process through either API; (b) in the same process a history of up to 10 calls on a Core whose app uses the legacy Time capability (start, start-and-clear in one update, fire, clear by id, drop request, duplicate fire): every started timer sends one notify request with a fresh id unless it was cleared in the same update, every clear sends exactly one Clear for that id, and each timer reports at most one outcome - completed only if the shell answered, cleared only if the app had cleared it - unchanged by later clears and answers; non-trivial = some timer saw both a clear and a fire, or >= 2 timers with >= 6 actions; distinct = distinct (timer kinds, action list)",
                     assumptions: vec!["responses have the kind matching the request (a mismatching kind is a documented developer error that panics)".into(), "the legacy capability is checked on the clauses that do not depend on the handle-based API (unique ids, one outcome with the right cause, one Clear per clear, nothing after the outcome); whether its clear may notify the shell about a timer the shell never saw is left open".into()],
                     started,
                     replayed,
